@@ -11,6 +11,9 @@ pub enum BoxKind {
     /// around multiples of pi/2 and integers
     Boundary,
     Huge,
+    /// widths near pi/2, pi, 2pi (+- a few ulps) and large trigonometric
+    /// arguments with small widths
+    TrigEdge,
     /// each variable draws its own kind (tame kinds only)
     MixedTame,
     /// each variable draws its own kind (all kinds)
@@ -81,6 +84,20 @@ fn one(rng: &mut Rng, k: BoxKind) -> (f32, f32) {
             let fin = |v: f32| if v.is_finite() { v } else { f32::MAX.copysign(v) };
             (fin(lo), fin(hi))
         }
+        BoxKind::TrigEdge => {
+            use std::f32::consts::{FRAC_PI_2, PI, TAU};
+            if rng.chance(0.5) {
+                let lo = rng.uniform(-8.0, 8.0) as f32;
+                let w = *rng.pick(&[FRAC_PI_2, PI, TAU, 3.0 * FRAC_PI_2]);
+                let hi = crate::util::step_ulps(lo + w, rng.range(-3, 3) as i32);
+                if lo <= hi { (lo, hi) } else { (hi, lo) }
+            } else {
+                let c = rng.log_f32(13.0, 26.0);
+                let w = rng.uniform(0.0, 6.0) as f32;
+                let hi = c + w;
+                if c <= hi { (c, hi) } else { (hi, c) }
+            }
+        }
         BoxKind::MixedTame => {
             let k = *rng.pick(&TAME_KINDS);
             one(rng, k)
@@ -88,6 +105,8 @@ fn one(rng: &mut Rng, k: BoxKind) -> (f32, f32) {
         BoxKind::MixedAll => {
             let k = if rng.chance(0.25) {
                 BoxKind::Huge
+            } else if rng.chance(0.25) {
+                BoxKind::TrigEdge
             } else {
                 *rng.pick(&TAME_KINDS)
             };
